@@ -12,7 +12,7 @@ import (
 func init() {
 	register(&core.Rule{ID: "C04.9", Prop: "C04", MinSites: 3,
 		Desc: "every poll attachment names its own descriptor and a handler: the conn constructors set pollAttachment.FD to their fd parameter and Callback to c.processIO (stream) / el.readUDP (datagram), the listener packs {ln.fd, handler}; with the poll_opt build the poller calls Callback directly, so a missing one crashes the loop on the first event and a foreign FD dispatches another connection's events",
-		Run: runC04_9})
+		Run:  runC04_9})
 }
 
 func runC04_9(c *core.Ctx) {
